@@ -10,6 +10,7 @@ vf.c09_batch.
 """
 from __future__ import annotations
 
+import gc
 import itertools
 import os
 from typing import Any
@@ -110,7 +111,7 @@ def fam_params(quick: bool) -> list:
                     for lay in (1, 2):
                         if p == DEFAULT and lay == 1:
                             continue
-                        if quick and lay == 1:
+                        if quick and (lay == 1 or ops[0] == ops[1]):
                             continue
                         cases.append(case('sabre', w, ops, 4, edges,
                                           'greedy', lay, p))
@@ -170,7 +171,7 @@ def fam_escape(quick: bool) -> list:
                     if third is not None:
                         ops.insert(pos, third)
                     for p in PARAMS:
-                        for lay in (0, 1, 2):
+                        for lay in (0, 1) if quick else (0, 1, 2):
                             cases.append(case(
                                 'sabre', w, ops, m, edges,
                                 'trivial' if m == w else 'greedy', lay, p,
@@ -326,9 +327,11 @@ def _items(family: str, cases: list, seed: int, per: int) -> list:
 
 def run(ctx: Ctx) -> None:
     ctx.max_reported = 20        # one line per distinct defect
+    gc.collect()
+    gc.freeze()                  # keep the forked workers' pages shared
     q = ctx.quick
     scale = float(os.environ.get('VERIF_BUDGET_SCALE', '1'))  # development
-    budget = (80 if q else 1600) * scale
+    budget = (78 if q else 1600) * scale
     pam = fam_pam(q)
     pam3 = [dict(c, flow='pam') for c in pam if c['flow'] == 'pam3']
     pam = [c for c in pam if c['flow'] == 'pam']
@@ -352,6 +355,25 @@ def run(ctx: Ctx) -> None:
         planned[name] = len(cases)
         its = _items(name, cases, ctx.seed, per)
         items += its
+    # families advance side by side (each simplest-first) so that a time cap
+    # leaves every family with a completed prefix
+    groups: dict[str, list] = {}
+    for it in items:
+        groups.setdefault(it[0], []).append(it)
+    queues = list(groups.values())
+    items = []
+    i = 0
+    while queues:
+        qu = queues[i % len(queues)]
+        items.append(qu.pop(0))
+        if not qu:
+            queues.remove(qu)
+        else:
+            i += 1
+    items_per_family = {k: 0 for k in groups}
+    for it in items:
+        items_per_family[it[0]] += 1
+    done_per_family = {k: 0 for k in groups}
     fails: dict[str, list] = {}
     fam: dict[str, dict] = {}
     probe: dict[str, int] = {}
@@ -360,6 +382,7 @@ def run(ctx: Ctx) -> None:
     for agg in pmap(_work, items, procs=ctx.procs,
                     deadline=ctx.t0 + budget):
         done += 1
+        done_per_family[agg['family']] += 1
         ctx.cov['evaluations'] += agg['runs']
         ctx.cov['distinct_nontrivial'] += agg['nontrivial']
         f = fam.setdefault(agg['family'], {
@@ -391,9 +414,13 @@ def run(ctx: Ctx) -> None:
                 if tuple(rank) < cur[0]:
                     cur[0], cur[1], cur[2] = tuple(rank), what, rep
     if done < len(items):
-        ctx.cap(f'time cap after {done} of {len(items)} work items '
-                '(families in the order escape, small-graphs, params, '
-                'pre-blocked, bigger; unordered completion)')
+        ctx.cap(
+            f'time cap after {done} of {len(items)} work items; families '
+            'advance side by side in canonical simplest-first order; '
+            'completed/planned items per family: ' + ', '.join(
+                f'{k}={done_per_family[k]}/{v}'
+                for k, v in sorted(items_per_family.items())),
+        )
     for name, d in sorted(fam.items()):
         ctx.part('family:' + name, planned=planned.get(name, 0), **d)
     for name, d in sorted(placements.items()):
